@@ -133,6 +133,19 @@ def r2_r3(prog, rep, fz):
             la = stagger.loc_array(s.targets[0])
             if la and T(mod, la[0]) == "region.zShift" and isinstance(s.value, ast.Constant) and s.value.value == 0.0:
                 zeros[la[1]] = True
+    if not zeros:
+        # the other spelling: `region.zShift = MultiLocationArray(nx, ny).zero()`; then the
+        # container's zero() method must set the four locations to 0.0 and return the object
+        for s in walk_own(fz.node):
+            if isinstance(s, ast.Assign) and T(mod, s.targets[0]) == "region.zShift" and isinstance(s.value, ast.Call) and isinstance(s.value.func, ast.Attribute) \
+                    and s.value.func.attr == "zero" and isinstance(s.value.func.value, ast.Call) and T(mod, s.value.func.value.func) == "MultiLocationArray":
+                zf = prog.func("hypnotoad/core/multilocationarray.py", "MultiLocationArray.zero")
+                for z in walk_own(zf.node):
+                    if isinstance(z, ast.Assign) and is_self_attr(z.targets[0]) and z.targets[0].attr in LOCS and isinstance(z.value, ast.Constant) and z.value.value == 0.0:
+                        zeros[z.targets[0].attr] = True
+                rets = [z for z in walk_own(zf.node) if isinstance(z, ast.Return)]
+                if not (len(rets) == 1 and isinstance(rets[0].value, ast.Name) and rets[0].value.id == "self"):
+                    zeros = {}
     rep.ob("R3", "the first region's zShift starts from zero at all four locations", set(zeros) == set(LOCS), fz.site(), str(sorted(zeros)), key="chain/zero")
     hand = {}
     for s in walk_own(fz.node):
